@@ -629,9 +629,15 @@ class Ctx:
             if kind != "b":
                 raise RuntimeError("non-deterministic harness: decision kind mismatch")
         else:
-            self.stats["branch_queries"] += 2
+            # the path condition is satisfiable on an entered path: if one direction is unsat the
+            # other one is feasible without asking
+            self.stats["branch_queries"] += 1
             rt = self._check(cond)
-            rf = self._check(z3.Not(cond))
+            if rt == "unsat":
+                rf = "sat"
+            else:
+                self.stats["branch_queries"] += 1
+                rf = self._check(z3.Not(cond))
             can_t = rt != "unsat"
             can_f = rf != "unsat"
             if rt == "unknown" or rf == "unknown":
@@ -646,6 +652,32 @@ class Ctx:
                 d = can_t
         self.taken.append(("b", d))
         self._add(cond if d else z3.Not(cond))
+        return d
+
+    def fork2(self, can_true_fn, can_false_fn):
+        """Generic two-way fork with externally decided feasibility (used by the regex algebra)."""
+        i = len(self.taken)
+        if i < len(self.prefix):
+            kind, d = self.prefix[i]
+            if kind != "b":
+                raise RuntimeError("non-deterministic harness: decision kind mismatch")
+        else:
+            can_t = can_true_fn()
+            self.stats["branch_queries"] += 1
+            if not can_t:
+                can_f = True       # the path condition is satisfiable on an entered path
+            else:
+                can_f = can_false_fn()
+                self.stats["branch_queries"] += 1
+            if not can_t and not can_f:
+                raise _Infeasible()
+            if can_t and can_f:
+                self.pending.append(self.taken + [("b", False)])
+                self.stats["decided_branches"] += 1
+                d = True
+            else:
+                d = can_t
+        self.taken.append(("b", d))
         return d
 
     def choice(self, n_or_list, label=None):
@@ -763,6 +795,19 @@ class Ctx:
             return None
         finally:
             self.solver.pop()
+
+    def record(self, label, cls, res, model=None, detail=None):
+        """Register an obligation decided outside the arithmetic solver (regex algebra, EUF...)."""
+        if self.mode == "conc":
+            return
+        if res == "unreach":
+            self.res.obligations.append(Obligation(label, cls, "unreach"))
+        elif res is True:
+            self.res.obligations.append(Obligation(label, cls, "discharged", detail=detail))
+        elif res is False:
+            self.res.obligations.append(Obligation(label, cls, "cex", model=dict(model or {}), detail=detail))
+        else:
+            self.res.obligations.append(Obligation(label, cls, "unknown", detail=detail))
 
     def reachable(self, label="reach"):
         """Vacuity guard: the current point must be reachable (PC satisfiable)."""
@@ -882,7 +927,9 @@ class Explorer:
     """Depth-first exploration of all solver-feasible paths of a harness by re-execution."""
 
     def __init__(self, fn, params=None, tier="quick", seed=0, budget_s=120.0, max_paths=20000,
-                 branch_timeout_ms=5000, oblige_timeout_ms=20000):
+                 branch_timeout_ms=5000, oblige_timeout_ms=20000, shard=None, stop_after_cex=None):
+        self.stop_after_cex = stop_after_cex
+        self.shard = shard          # (k, n): explore only every n-th alternative of the root path
         self.fn = fn
         self.params = dict(params or {})
         self.tier = tier
@@ -940,9 +987,21 @@ class Explorer:
             for k in ("branch_queries", "oblige_queries", "solver_time", "decided_branches"):
                 self.stats[k] += ctx.stats[k]
             self.stats["max_query"] = max(self.stats["max_query"], ctx.stats["max_query"])
-            work.extend(ctx.pending)
+            is_root = not prefix
+            if self.shard is not None and is_root:
+                k, n = self.shard
+                work.extend(p for j, p in enumerate(ctx.pending) if j % n == k)
+                if k != 0:
+                    continue        # the root path itself belongs to shard 0 (here: discovery only)
+            else:
+                work.extend(ctx.pending)
             if ctx.res.status != "infeasible":
                 self.paths.append(ctx.res)
+            if self.stop_after_cex is not None:
+                ncex = sum(1 for p in self.paths if any(o.status == "cex" for o in p.obligations))
+                if ncex >= self.stop_after_cex:
+                    self.not_explored += len(work)
+                    break
         self.wall = time.time() - t0
         return self
 
